@@ -134,6 +134,8 @@ struct Driver {
 
   void Note(const std::string& s) { log += s + "\n"; }
 
+  // (K15 leaves the tree without build.ninja, or without the manifest it includes: the history ends there)
+  bool ManifestGone() { return !w.k.Exists("build.ninja") || (w.sc.subninja && !w.k.Exists("sub.ninja")); }
   std::vector<std::string> AllOutputs() const {
     std::vector<std::string> v;
     for (const Stmt& s : w.sc.stmts) if (s.alive && !s.regen) for (auto& o : w.sc.DeclaredOuts(s.id)) v.push_back(o);
@@ -162,10 +164,11 @@ struct Driver {
           bool dyn_only = false, named = false;
           for (auto& dd : w.sc.dyndeps) for (auto& e : dd.entries) for (auto& o : e.imp_outs) if (o == t) dyn_only = true;
           if (dyn_only && prof.twin_dyndep) continue;
-          // ... and when another statement names it in the manifest, ninja knows the path but not, before
-          // the dyndep file is read, who makes it: asked for by name alone it is a plain file (the way
-          // dyndep works, not a behaviour any property describes), so it is not asked for by name
-          if (dyn_only) for (const Stmt& q : w.sc.stmts) if (q.alive) for (auto* v : {&q.ins, &q.imp_ins, &q.oo_ins}) if (std::find(v->begin(), v->end(), t) != v->end()) named = true;
+          // ... and when another statement names it in the manifest - or did, and a deps-log record still
+          // does - ninja knows the path but not, before the dyndep file is read, who makes it: asked for by
+          // name alone it is a plain file (the way dyndep works, not a behaviour any property describes),
+          // so it is not asked for by name once any statement has ever named it
+          if (dyn_only) for (const Stmt& q : w.sc.stmts) for (auto* v : {&q.ins, &q.imp_ins, &q.oo_ins}) if (std::find(v->begin(), v->end(), t) != v->end()) named = true;
           if (named) continue;
         }
         if (std::find(p.targets.begin(), p.targets.end(), t) == p.targets.end()) p.targets.push_back(t);
@@ -499,10 +502,12 @@ struct Driver {
     if (!r2.ok()) {
       bool regen_hit = false;
       for (auto& x : r.spawns) if (w.sc.stmts[x.stmt].regen && (x.killed || !x.reap_seq)) regen_hit = true;
-      bool manifest_removed = false;
-      for (const Ev& e : r.res.trace) if (e.kind == Ev::kFsRemove && e.s == "/w/build.ninja") manifest_removed = true;
-      if (regen_hit && r.interrupted && manifest_removed && r2.res.err.find("loading 'build.ninja'") != std::string::npos) {
-        w.Report("C07", "regen_manifest_deleted", "the interrupted ninja deleted build.ninja, which its manifest generator had just rewritten; the next invocation cannot start: " + r2.res.err.substr(0, 120));
+      // (the generator may declare a manifest that build.ninja includes as a further output: the same clean-up deletes it)
+      std::string manifest_removed;
+      for (const char* mf : {"build.ninja", "sub.ninja"})
+        for (const Ev& e : r.res.trace) if (e.kind == Ev::kFsRemove && e.s == std::string("/w/") + mf && r2.res.err.find(std::string("loading '") + mf + "'") != std::string::npos) manifest_removed = mf;
+      if (regen_hit && r.interrupted && !manifest_removed.empty()) {
+        w.Report("C07", "regen_manifest_deleted", "the interrupted ninja deleted " + manifest_removed + ", which its manifest generator had just rewritten; the next invocation cannot start: " + r2.res.err.substr(0, 120));
         return;
       }
       w.Report("C07", "recovery_failed", "the build after " + std::string(crashed ? "a killed" : "an interrupted") + " ninja exited " + std::to_string(r2.res.exit_code) + " " + r2.res.end_detail + ": " + r2.res.err.substr(0, 200) + r2.res.out.substr(0, 200));
@@ -743,7 +748,7 @@ struct Driver {
 
   void DoBuild() {
     // (K15 can delete the manifest; everything after that only repeats it)
-    if (!w.k.Exists("build.ninja")) { dead = true; return; }
+    if (ManifestGone()) { dead = true; return; }
     InvPlan p = MakeBuildPlan();
     if (prof.enumerate_faults && !enumerated && builds_done > 0 && H(2) == 0) EnumerateKills(p);
     PlanProcessFaults(p);
@@ -913,7 +918,7 @@ struct Driver {
       std::string x = outs[H((uint32_t)outs.size())];
       bool dyn_named = false;   // (see MakeBuildPlan: a dyndep-declared output that the manifest names as an input)
       for (auto& dd : w.sc.dyndeps) for (auto& e : dd.entries) for (auto& o : e.imp_outs) if (o == x)
-        for (const Stmt& q : w.sc.stmts) if (q.alive) for (auto* v : {&q.ins, &q.imp_ins, &q.oo_ins}) if (std::find(v->begin(), v->end(), x) != v->end()) dyn_named = true;
+        for (const Stmt& q : w.sc.stmts) for (auto* v : {&q.ins, &q.imp_ins, &q.oo_ins}) if (std::find(v->begin(), v->end(), x) != v->end()) dyn_named = true;
       if (dyn_named) continue;
       if (std::find(t.begin(), t.end(), x) == t.end()) t.push_back(x);
     }
@@ -940,7 +945,7 @@ struct Driver {
   }
 
   void DoDryRun() {
-    if (!w.k.Exists("build.ninja")) { dead = true; return; }
+    if (ManifestGone()) { dead = true; return; }
     InvPlan p;
     p.stream = ST_INV0 + inv_index++;
     p.dry = true;
@@ -997,7 +1002,7 @@ struct Driver {
   }
 
   void DoReadOnlyTool() {
-    if (!w.k.Exists("build.ninja")) { dead = true; return; }
+    if (ManifestGone()) { dead = true; return; }
     static const char* kTools[] = {"commands", "inputs", "multi-inputs", "query", "targets", "rules", "graph", "compdb", "compdb-targets", "deps", "missingdeps"};
     std::string tool = kTools[H(11)];
     InvPlan p;
@@ -1081,7 +1086,7 @@ struct Driver {
   }
 
   void DoClean() {
-    if (!w.k.Exists("build.ninja")) { dead = true; return; }
+    if (ManifestGone()) { dead = true; return; }
     InvPlan p;
     p.stream = ST_INV0 + inv_index++;
     p.j = -1;
@@ -1192,7 +1197,7 @@ struct Driver {
   }
 
   void DoCleanDead() {
-    if (!w.k.Exists("build.ninja")) { dead = true; return; }
+    if (ManifestGone()) { dead = true; return; }
     InvPlan p;
     p.stream = ST_INV0 + inv_index++;
     p.j = -1;
@@ -1407,7 +1412,7 @@ struct Driver {
   // changes only the recorded mtimes"; recompaction keeps the latest record of everything
   // that is still in the manifest).
   void DoLogTool() {
-    if (!w.k.Exists("build.ninja")) { dead = true; return; }
+    if (ManifestGone()) { dead = true; return; }
     bool restat = H(3) != 0;
     InvPlan p;
     p.stream = ST_INV0 + inv_index++;
